@@ -239,7 +239,7 @@ impl Calendar {
         let calendar_date = self
             .0
             .date_from_codes(
-                Some(IcuEra(resolved_fields.era_year.era.0)),
+                resolved_fields.era_year.era.map(|era| IcuEra(era.0)),
                 resolved_fields.era_year.year,
                 IcuMonthCode(resolved_fields.month_code.0),
                 resolved_fields.day,
@@ -300,7 +300,7 @@ impl Calendar {
         let calendar_date = self
             .0
             .date_from_codes(
-                Some(IcuEra(resolved_fields.era_year.era.0)),
+                resolved_fields.era_year.era.map(|era| IcuEra(era.0)),
                 resolved_fields.era_year.year,
                 IcuMonthCode(resolved_fields.month_code.0),
                 resolved_fields.day,
@@ -626,24 +626,6 @@ impl Calendar {
             AnyCalendarKind::Roc if era::ROC_INVERSE_ERA_IDENTIFIERS.contains(era_alias) => {
                 Some(era::ROC_INVERSE_ERA)
             }
-            _ => None,
-        }
-    }
-
-    pub(crate) fn get_calendar_default_era(&self) -> Option<EraInfo> {
-        match self.0 .0.kind() {
-            AnyCalendarKind::Buddhist => Some(era::BUDDHIST_ERA),
-            AnyCalendarKind::Chinese => Some(era::CHINESE_ERA),
-            AnyCalendarKind::Dangi => Some(era::DANGI_ERA),
-            AnyCalendarKind::EthiopianAmeteAlem => Some(era::ETHIOAA_ERA),
-            AnyCalendarKind::Hebrew => Some(era::HEBREW_ERA),
-            AnyCalendarKind::Indian => Some(era::INDIAN_ERA),
-            AnyCalendarKind::IslamicCivil => Some(era::ISLAMIC_CIVIL_ERA),
-            AnyCalendarKind::IslamicObservational => Some(era::ISLAMIC_ERA),
-            AnyCalendarKind::IslamicTabular => Some(era::ISLAMIC_TBLA_ERA),
-            AnyCalendarKind::IslamicUmmAlQura => Some(era::ISLAMIC_UMALQURA_ERA),
-            AnyCalendarKind::Iso => Some(era::ISO_ERA),
-            AnyCalendarKind::Persian => Some(era::PERSIAN_ERA),
             _ => None,
         }
     }
